@@ -364,6 +364,11 @@ type c15Rec struct {
 	Ref    chunks.HeadSeriesRef
 	T      int64  // sample/exemplar time, tombstone maxt
 	Series string // label value "a" of the series the ref stands for; "" = no preceding series record
+	Inc    int    // incarnation: index of the latest preceding series record for Ref in this log (-1: none)
+	Help   string // metadata records
+	Ivs    tombstones.Intervals
+	Full   bool   // tombstone over [MinInt64,MaxInt64]: replay drops the series at this point
+	Val    string // exemplars: value
 }
 
 type c15Log struct {
@@ -371,14 +376,22 @@ type c15Log struct {
 	First, Last int
 	Recs        []c15Rec
 	SeriesRecs  []string
+	RefNames    map[chunks.HeadSeriesRef]map[string]bool // every series a ref ever stood for
+	IncName     []string                                 // series name per incarnation (= per series record)
+	incOf       map[chunks.HeadSeriesRef]int
 	Digest      string
 }
 
-func c15ReadRecords(rd io.Reader, seg int, refs map[chunks.HeadSeriesRef]string, w *c15Log) *vx.Fail {
+func c15ReadRecords(rd io.Reader, seg int, refs map[chunks.HeadSeriesRef]string, w *c15Log, strict bool) *vx.Fail {
 	r := wlog.NewReader(rd)
 	dec := record.NewDecoder(labels.NewSymbolTable(), promslog.NewNopLogger())
-	add := func(kind string, ref chunks.HeadSeriesRef, t int64) {
-		w.Recs = append(w.Recs, c15Rec{Seg: seg, Kind: kind, Ref: ref, T: t, Series: refs[ref]})
+	add := func(kind string, ref chunks.HeadSeriesRef, t int64) *c15Rec {
+		inc, ok := w.incOf[ref]
+		if !ok {
+			inc = -1
+		}
+		w.Recs = append(w.Recs, c15Rec{Seg: seg, Kind: kind, Ref: ref, T: t, Series: refs[ref], Inc: inc})
+		return &w.Recs[len(w.Recs)-1]
 	}
 	for r.Next() {
 		rec := r.Record()
@@ -390,10 +403,16 @@ func c15ReadRecords(rd io.Reader, seg int, refs map[chunks.HeadSeriesRef]string,
 			}
 			for _, s := range ss {
 				k := s.Labels.Get("a")
-				if prev, ok := refs[s.Ref]; ok && prev != k {
+				if prev, ok := refs[s.Ref]; ok && prev != k && strict {
 					return vx.Failf("wal-ref-reused-for-other-series", "series ref %d stands for %s and later for %s", s.Ref, prev, k)
 				}
 				refs[s.Ref] = k
+				if w.RefNames[s.Ref] == nil {
+					w.RefNames[s.Ref] = map[string]bool{}
+				}
+				w.RefNames[s.Ref][k] = true
+				w.incOf[s.Ref] = len(w.SeriesRecs)
+				w.IncName = append(w.IncName, k)
 				w.SeriesRecs = append(w.SeriesRecs, fmt.Sprintf("%d:%d=%s", seg, s.Ref, k))
 			}
 		case record.Samples, record.SamplesV2:
@@ -426,7 +445,7 @@ func c15ReadRecords(rd io.Reader, seg int, refs map[chunks.HeadSeriesRef]string,
 				return vx.Failf("wal-undecodable", "exemplar record in %d: %v", seg, err)
 			}
 			for _, e := range es {
-				add("exemplar", e.Ref, e.T)
+				add("exemplar", e.Ref, e.T).Val = fmt.Sprintf("%d=%g%s", e.T, e.V, e.Labels.String())
 			}
 		case record.Tombstones:
 			ts, err := dec.Tombstones(rec, nil)
@@ -440,7 +459,9 @@ func c15ReadRecords(rd io.Reader, seg int, refs map[chunks.HeadSeriesRef]string,
 						mx = iv.Maxt
 					}
 				}
-				add("tombstone", chunks.HeadSeriesRef(s.Ref), mx)
+				r := add("tombstone", chunks.HeadSeriesRef(s.Ref), mx)
+				r.Ivs = append(tombstones.Intervals{}, s.Intervals...)
+				r.Full = len(s.Intervals) == 1 && s.Intervals[0].Mint == math.MinInt64 && s.Intervals[0].Maxt == math.MaxInt64
 			}
 		case record.Metadata:
 			ms, err := dec.Metadata(rec, nil)
@@ -448,7 +469,7 @@ func c15ReadRecords(rd io.Reader, seg int, refs map[chunks.HeadSeriesRef]string,
 				return vx.Failf("wal-undecodable", "metadata record in %d: %v", seg, err)
 			}
 			for _, m := range ms {
-				add("metadata", m.Ref, math.MaxInt64)
+				add("metadata", m.Ref, math.MaxInt64).Help = fmt.Sprintf("%d|%s|%s", m.Type, m.Unit, m.Help)
 			}
 		default:
 			return vx.Failf("wal-unexpected-record-type", "record type %v in %d", typ, seg)
@@ -460,8 +481,8 @@ func c15ReadRecords(rd io.Reader, seg int, refs map[chunks.HeadSeriesRef]string,
 	return nil
 }
 
-func c15Decode(dir string) (*c15Log, *vx.Fail) {
-	w := &c15Log{CP: -1}
+func c15Decode(dir string, strict bool) (*c15Log, *vx.Fail) {
+	w := &c15Log{CP: -1, RefNames: map[chunks.HeadSeriesRef]map[string]bool{}, incOf: map[chunks.HeadSeriesRef]int{}}
 	refs := map[chunks.HeadSeriesRef]string{}
 	start := -1
 	cpDir, idx, err := wlog.LastCheckpoint(dir)
@@ -470,7 +491,7 @@ func c15Decode(dir string) (*c15Log, *vx.Fail) {
 		if err != nil {
 			return nil, vx.Failf("wal-unreadable", "checkpoint %s: %v", cpDir, err)
 		}
-		f := c15ReadRecords(rc, -1, refs, w)
+		f := c15ReadRecords(rc, -1, refs, w, strict)
 		rc.Close()
 		if f != nil {
 			return nil, f
@@ -492,7 +513,7 @@ func c15Decode(dir string) (*c15Log, *vx.Fail) {
 		if err != nil {
 			return nil, vx.Failf("wal-segment-gap", "segment %d of [%d,%d] (checkpoint %d): %v", i, first, last, w.CP, err)
 		}
-		if f := c15ReadRecords(bytes.NewReader(b), i, refs, w); f != nil {
+		if f := c15ReadRecords(bytes.NewReader(b), i, refs, w, strict); f != nil {
 			return nil, f
 		}
 	}
@@ -529,7 +550,7 @@ func c15RelSeg(s string, first int) string {
 type c15View struct {
 	Samples   map[string][]string
 	Exemplars map[string][]string
-	Tombs     map[string]string
+	Tombs     map[string]tombstones.Intervals
 	Meta      map[string]string
 }
 
@@ -575,32 +596,140 @@ func c15CopyLog(src, dst string, withCheckpoint bool) {
 	}
 }
 
-// c15ConcatLog writes all segments of src, each padded with zeros to a page boundary, as ONE
-// segment into dst: the same record sequence (records never span segments, zero padding is what
-// the writer itself puts at the end of a page), but replay allocates one 512 KiB read buffer
-// instead of one per segment.
-func c15ConcatLog(src, dst string) {
-	if err := os.MkdirAll(dst, 0o777); err != nil {
-		panic(err)
-	}
+// c15RenumberLog rewrites the untruncated shadow log src as ONE segment in dst in which every
+// incarnation of a series ref is unique. After a checkpoint dropped every record of a ref and a
+// restart, the head may hand the same ref to a different series; the real log never holds both
+// incarnations, but the retained shadow copy does, and the replay code (rightly) cannot tell them
+// apart. A later series record for an already used ref with DIFFERENT labels starts a new
+// incarnation: it and all following records for that ref get a fresh ref.
+func c15RenumberLog(src, dst string) {
 	first, last, err := wlog.Segments(src)
 	if err != nil {
 		panic(err)
 	}
-	const page = 32 * 1024
-	var out []byte
+	w, err := wlog.NewSize(promslog.NewNopLogger(), nil, dst, 64*32*1024, compression.None)
+	if err != nil {
+		panic(err)
+	}
+	defer w.Close()
+	type inc struct {
+		name string
+		ref  chunks.HeadSeriesRef
+	}
+	cur := map[chunks.HeadSeriesRef]inc{}
+	next := chunks.HeadSeriesRef(1 << 20)
+	m := func(r chunks.HeadSeriesRef) chunks.HeadSeriesRef {
+		if c, ok := cur[r]; ok {
+			return c.ref
+		}
+		return r
+	}
+	dec := record.NewDecoder(labels.NewSymbolTable(), promslog.NewNopLogger())
+	var enc record.Encoder
+	log := func(b []byte) {
+		if len(b) == 0 {
+			return
+		}
+		if err := w.Log(b); err != nil {
+			panic(err)
+		}
+	}
 	for i := first; i <= last && i >= 0; i++ {
 		b, err := os.ReadFile(wlog.SegmentName(src, i))
 		if err != nil {
 			panic(err)
 		}
-		out = append(out, b...)
-		if r := len(out) % page; r != 0 {
-			out = append(out, make([]byte, page-r)...)
+		r := wlog.NewReader(bytes.NewReader(b))
+		for r.Next() {
+			rec := r.Record()
+			switch dec.Type(rec) {
+			case record.Series:
+				ss, err := dec.Series(rec, nil)
+				if err != nil {
+					panic(err)
+				}
+				for k := range ss {
+					name := ss[k].Labels.Get("a")
+					c, ok := cur[ss[k].Ref]
+					switch {
+					case !ok:
+						cur[ss[k].Ref] = inc{name, ss[k].Ref}
+					case c.name != name:
+						next++
+						cur[ss[k].Ref] = inc{name, next}
+					}
+					ss[k].Ref = m(ss[k].Ref)
+				}
+				log(enc.Series(ss, nil))
+			case record.Samples, record.SamplesV2:
+				ss, err := dec.Samples(rec, nil)
+				if err != nil {
+					panic(err)
+				}
+				for k := range ss {
+					ss[k].Ref = m(ss[k].Ref)
+				}
+				log(enc.Samples(ss, nil))
+			case record.HistogramSamples, record.HistogramSamplesV2, record.CustomBucketsHistogramSamples:
+				hs, err := dec.HistogramSamples(rec, nil)
+				if err != nil {
+					panic(err)
+				}
+				for k := range hs {
+					hs[k].Ref = m(hs[k].Ref)
+				}
+				b, left := enc.HistogramSamples(hs, nil)
+				log(b)
+				if len(left) > 0 {
+					log(enc.CustomBucketsHistogramSamples(left, nil))
+				}
+			case record.FloatHistogramSamples, record.FloatHistogramSamplesV2, record.CustomBucketsFloatHistogramSamples:
+				hs, err := dec.FloatHistogramSamples(rec, nil)
+				if err != nil {
+					panic(err)
+				}
+				for k := range hs {
+					hs[k].Ref = m(hs[k].Ref)
+				}
+				b, left := enc.FloatHistogramSamples(hs, nil)
+				log(b)
+				if len(left) > 0 {
+					log(enc.CustomBucketsFloatHistogramSamples(left, nil))
+				}
+			case record.Exemplars:
+				es, err := dec.Exemplars(rec, nil)
+				if err != nil {
+					panic(err)
+				}
+				for k := range es {
+					es[k].Ref = m(es[k].Ref)
+				}
+				log(enc.Exemplars(es, nil))
+			case record.Tombstones:
+				ts, err := dec.Tombstones(rec, nil)
+				if err != nil {
+					panic(err)
+				}
+				for k := range ts {
+					ts[k].Ref = storage.SeriesRef(m(chunks.HeadSeriesRef(ts[k].Ref)))
+				}
+				log(enc.Tombstones(ts, nil))
+			case record.Metadata:
+				ms, err := dec.Metadata(rec, nil)
+				if err != nil {
+					panic(err)
+				}
+				for k := range ms {
+					ms[k].Ref = m(ms[k].Ref)
+				}
+				log(enc.Metadata(ms, nil))
+			default:
+				panic(fmt.Sprintf("shadow log: unexpected record type %v", dec.Type(rec)))
+			}
 		}
-	}
-	if err := os.WriteFile(wlog.SegmentName(dst, 0), out, 0o666); err != nil {
-		panic(err)
+		if err := r.Err(); err != nil {
+			panic(fmt.Sprintf("shadow log segment %d: %v", i, err))
+		}
 	}
 }
 
@@ -615,14 +744,14 @@ func c15Replay(logDir string, withCheckpoint bool, from int64) (v *c15View, err 
 	if withCheckpoint {
 		c15CopyLog(logDir, filepath.Join(tmp, "wal"), true)
 	} else {
-		c15ConcatLog(logDir, filepath.Join(tmp, "wal"))
+		c15RenumberLog(logDir, filepath.Join(tmp, "wal"))
 	}
 	h, err := c15OpenHead(tmp, from)
 	if err != nil {
 		return nil, err
 	}
 	defer h.Close()
-	v = &c15View{Samples: map[string][]string{}, Exemplars: map[string][]string{}, Tombs: map[string]string{}, Meta: map[string]string{}}
+	v = &c15View{Samples: map[string][]string{}, Exemplars: map[string][]string{}, Tombs: map[string]tombstones.Intervals{}, Meta: map[string]string{}}
 	q, err := NewBlockQuerier(NewRangeHead(h, math.MinInt64, math.MaxInt64), math.MinInt64, math.MaxInt64)
 	if err != nil {
 		return nil, err
@@ -694,11 +823,11 @@ func c15Replay(logDir string, withCheckpoint bool, from int64) (v *c15View, err 
 			clipped = clipped.Add(iv)
 		}
 		if len(clipped) > 0 {
-			v.Tombs[name] = fmt.Sprint(clipped)
+			v.Tombs[name] = clipped
 		}
 		s.Lock()
 		if s.meta != nil {
-			v.Meta[name] = fmt.Sprintf("%s|%s|%s", s.meta.Type, s.meta.Unit, s.meta.Help)
+			v.Meta[name] = s.meta.Help
 		}
 		s.Unlock()
 	}
@@ -738,7 +867,7 @@ func c15DiffMaps[V any](a, b map[string]V) (string, string, string) {
 func (x *c15Sys) check() *vx.Fail {
 	op := strings.SplitN(x.lastOp, "/", 2)[0]
 	x.syncShadow()
-	w, f := c15Decode(x.walDir())
+	w, f := c15Decode(x.walDir(), true)
 	if f != nil {
 		return f
 	}
@@ -748,11 +877,23 @@ func (x *c15Sys) check() *vx.Fail {
 		if r.Series != "" {
 			continue
 		}
-		when := "at-or-after-truncation-time"
-		if r.T < x.maxMint {
-			when = "before-truncation-time"
+		// Does replay from the truncation time on need the record? Samples, histograms and
+		// exemplars: by their own timestamp. Tombstones (reaching the truncation time) and
+		// metadata: when the live log still holds data at or after the truncation time for the
+		// same ref (a series record may only be dropped with all that belongs to it).
+		needed := r.T >= x.maxMint
+		if r.Kind == "tombstone" || r.Kind == "metadata" {
+			needed = false
+			for _, lr := range w.Recs {
+				if lr.Ref == r.Ref && lr.T >= x.maxMint && r.T >= x.maxMint && lr.Kind != "tombstone" && lr.Kind != "metadata" {
+					needed = true
+				}
+			}
 		}
-		sig := "record-without-preceding-series-record/" + r.Kind + "/" + when
+		sig := "record-without-preceding-series-record/not-needed-by-replay"
+		if needed {
+			sig = "record-without-preceding-series-record/needed-by-replay/" + r.Kind
+		}
 		msg := fmt.Sprintf("after %s: the log (seg %d, -1=checkpoint) holds a %s record (t=%d) for ref %d but no series record for that ref precedes it in replay order (truncation time %d). history %v; log: %s", x.lastOp, r.Seg, r.Kind, r.T, r.Ref, x.maxMint, x.hist, w.Digest)
 		if x.soft != nil {
 			x.soft(sig, msg)
@@ -776,7 +917,11 @@ func (x *c15Sys) check() *vx.Fail {
 	if err != nil {
 		return vx.Failf("replay-of-shadow-log-fails/"+op, "after %s: %v. history %v", x.lastOp, err, x.hist)
 	}
-	if f := c15Compare(a, b, op, fmt.Sprintf("after %s (truncation time %d, history %v; log: %s)", x.lastOp, x.maxMint, x.hist, w.Digest)); f != nil {
+	sh, f := c15Decode(x.shadowDir(), false)
+	if f != nil {
+		return vx.Failf("shadow-"+f.Signature, "shadow log: %s", f.Message)
+	}
+	if f := c15Compare(a, b, c15Requirements(sh, x.maxMint), op, fmt.Sprintf("after %s (truncation time %d, history %v; log: %s)", x.lastOp, x.maxMint, x.hist, w.Digest)); f != nil {
 		return f
 	}
 	if x.obs != nil {
@@ -789,18 +934,126 @@ func (x *c15Sys) check() *vx.Fail {
 	return nil
 }
 
-func c15Compare(a, b *c15View, op, ctx string) *vx.Fail {
+// c15Req is what the untruncated log says replay from the truncation time on must keep. The
+// replay code merges series records with equal labels, so tombstones and metadata recorded for
+// an earlier incarnation of a label set (a ref whose series was collected or evicted since) are
+// inherited by a later one only as long as the old records are still in the log; they belong to
+// data before the truncation time and a checkpoint may drop them. Binding are the records of
+// incarnations that still have samples/exemplars at or after the truncation time.
+type c15Req struct {
+	Meta         map[string]string               // series -> latest metadata among incarnations with data (absent: none binding)
+	MetaOptional map[string]bool                 // the latest metadata overall belongs to an incarnation without data
+	Tombs        map[string]tombstones.Intervals // series -> binding tombstone intervals, clipped
+	RacyEx       map[string]map[string]bool      // series -> exemplars followed by a full-range tombstone of the same series
+}
+
+func c15Requirements(sh *c15Log, from int64) *c15Req {
+	q := &c15Req{Meta: map[string]string{}, MetaOptional: map[string]bool{}, Tombs: map[string]tombstones.Intervals{}, RacyEx: map[string]map[string]bool{}}
+	hasData := map[int]bool{}
+	for _, r := range sh.Recs {
+		if r.Inc >= 0 && r.T >= from && (r.Kind == "sample" || r.Kind == "histogram" || r.Kind == "exemplar") {
+			hasData[r.Inc] = true
+		}
+	}
+	for i, r := range sh.Recs {
+		if r.Inc < 0 {
+			continue
+		}
+		name := sh.IncName[r.Inc]
+		switch r.Kind {
+		case "metadata":
+			if hasData[r.Inc] {
+				q.Meta[name] = r.Help[strings.LastIndex(r.Help, "|")+1:]
+				q.MetaOptional[name] = false
+			} else {
+				q.MetaOptional[name] = true
+			}
+		case "tombstone":
+			if r.Full {
+				// replay forgets the series here, together with every earlier tombstone
+				delete(q.Tombs, name)
+				for _, e := range sh.Recs[:i] {
+					if e.Kind == "exemplar" && e.Inc >= 0 && sh.IncName[e.Inc] == name {
+						if q.RacyEx[name] == nil {
+							q.RacyEx[name] = map[string]bool{}
+						}
+						q.RacyEx[name][e.Val] = true
+					}
+				}
+				continue
+			}
+			if !hasData[r.Inc] {
+				continue
+			}
+			for _, iv := range r.Ivs {
+				if iv.Maxt < from {
+					continue
+				}
+				if iv.Mint < from {
+					iv.Mint = from
+				}
+				q.Tombs[name] = q.Tombs[name].Add(iv)
+			}
+		}
+	}
+	return q
+}
+
+func c15Covers(outer tombstones.Intervals, inner tombstones.Intervals) bool {
+	for _, iv := range inner {
+		ok := false
+		for _, o := range outer {
+			if o.Mint <= iv.Mint && iv.Maxt <= o.Maxt {
+				ok = true
+			}
+		}
+		if !ok {
+			return false
+		}
+	}
+	return true
+}
+
+func c15Compare(a, b *c15View, q *c15Req, op, ctx string) *vx.Fail {
 	if k, av, bv := c15DiffMaps(a.Samples, b.Samples); k != "" {
 		return vx.Failf("replay-samples-differ/"+op, "%s: series %s: checkpoint+segments replay samples %s, untruncated log replays %s", ctx, k, av, bv)
 	}
-	if k, av, bv := c15DiffMaps(a.Exemplars, b.Exemplars); k != "" {
+	// Exemplars of a series that is later dropped by a full-range tombstone are added by a
+	// separate replay goroutine that looks the series up when it gets to them: whether they survive
+	// depends on goroutine timing. They are left out of the comparison.
+	strip := func(m map[string][]string) map[string][]string {
+		out := map[string][]string{}
+		for k, es := range m {
+			for _, e := range es {
+				if !q.RacyEx[k][e] {
+					out[k] = append(out[k], e)
+				}
+			}
+		}
+		return out
+	}
+	if k, av, bv := c15DiffMaps(strip(a.Exemplars), strip(b.Exemplars)); k != "" {
 		return vx.Failf("replay-exemplars-differ/"+op, "%s: series %s: checkpoint+segments replay exemplars %s, untruncated log replays %s", ctx, k, av, bv)
 	}
-	if k, av, bv := c15DiffMaps(a.Tombs, b.Tombs); k != "" {
-		return vx.Failf("replay-tombstones-differ/"+op, "%s: series %s: checkpoint+segments replay tombstones %s, untruncated log replays %s", ctx, k, av, bv)
-	}
-	if k, av, bv := c15DiffMaps(a.Meta, b.Meta); k != "" {
-		return vx.Failf("replay-metadata-differs/"+op, "%s: series %s: checkpoint+segments replay metadata %s, untruncated log replays %s", ctx, k, av, bv)
+	for _, name := range vx.SortedKeys(a.Samples) {
+		// tombstones: everything binding must be there, nothing the untruncated log does not have
+		if !c15Covers(a.Tombs[name], q.Tombs[name]) {
+			return vx.Failf("replay-tombstones-differ/"+op, "%s: series %s: checkpoint+segments replay tombstones %v, but the untruncated log holds %v for incarnations that still have data", ctx, name, a.Tombs[name], q.Tombs[name])
+		}
+		if !c15Covers(b.Tombs[name], a.Tombs[name]) {
+			return vx.Failf("replay-tombstones-differ/"+op, "%s: series %s: checkpoint+segments replay tombstones %v, untruncated log replays only %v", ctx, name, a.Tombs[name], b.Tombs[name])
+		}
+		// latest metadata
+		am, aok := a.Meta[name]
+		bm, bok := b.Meta[name]
+		if am == bm && aok == bok {
+			continue
+		}
+		rm, rok := q.Meta[name]
+		if q.MetaOptional[name] && am == rm && aok == rok {
+			continue
+		}
+		return vx.Failf("replay-metadata-differs/"+op, "%s: series %s: checkpoint+segments replay metadata %q (present %v), untruncated log replays %q (present %v); binding (recorded for an incarnation that still has data): %q (present %v)", ctx, name, am, aok, bm, bok, rm, rok)
 	}
 	return nil
 }
@@ -849,7 +1102,7 @@ func (x *c15Sys) Key() string {
 	fmt.Fprintf(&sb, "|exp %v|ts%d", exp, h.tombstones.Total())
 	w, f := x.cache, (*vx.Fail)(nil)
 	if w == nil {
-		w, f = c15Decode(x.walDir())
+		w, f = c15Decode(x.walDir(), true)
 	}
 	if f != nil {
 		sb.WriteString("|wal-error " + f.Signature)
